@@ -134,3 +134,14 @@ Print Assumptions C03_logical_printing.
 Theorem C03_logical_precedence_matters : forall oc oo ao nc no, ~ printer_statement oc oo oo ao nc no.
 Proof. exact printer_refuted. Qed.
 Print Assumptions C03_logical_precedence_matters.
+
+(* helper subroutines of called functions: the generator keys them by (function identifier, kinds of
+   the arguments) -- read off emit_inst_AssignFunctionCall / finish_emit, fail-closed -- and the
+   model evaluates a call with the helper instantiated for the call's own argument kinds; a helper
+   made for other kinds (another user type / extent) has no behaviour on these arguments *)
+Theorem C03_helper_per_kinds :
+  c03_helper_key = ["inst.function_id"; "arg_kinds"] /\
+  (forall F f pos kw, helper F (helper_key f pos) pos kw = F f pos kw) /\
+  (forall F f ks pos kw, ks <> map kind_of_val pos -> helper F (f, ks) pos kw = None).
+Proof. exact (conj eq_refl (conj helper_own_key helper_foreign_key)). Qed.
+Print Assumptions C03_helper_per_kinds.
